@@ -70,52 +70,7 @@ def pdEx : PDesc :=
               { id := 7, state := 2, tokens := [2, 4294967293] }] }
 example : WFP pdEx := ⟨by decide, by decide, by decide, by decide⟩
 
-/-! ### Instances (zone-aware ring, replication factor = number of zones)
-
-`instance_ranges_exact` — "for every well-formed ring the ranges contain `k` iff the lookup assigns
-`k` to the instance" — is FALSE of the current code (witness below): `GetTokenRangesForInstance`
-uses `rangeEnd == 0` as "no range end", which collides with the real range end `1 - 1 = 0`.
-`bad zt` is the exact class of zone layouts on which that happens: the zone holds token 0, the
-instance owns token 1, and the token following 1 on the circle belongs to another instance.
-
-  theorem instance_ranges_exact (d) (h : WFR d) (inst ∈ d) (inst.zone ≠ "") (zone has tokens) :
-      ∃ tr, rangesForInstance d true (zonesOf d).length inst.id = .ok tr ∧
-        ∀ k ≤ maxU32, (includesKey tr k = true ↔ lookupInZone d inst.zone k = some inst.id)
--/
-
-/-- WITNESS (defect): zone tokens `{0:B, 1:A, 100:B}`. The lookup assigns key 0 to `A`, but `A`'s
-reported ranges are empty and `B`'s are `[1, 2^32-1]`: key 0 is in nobody's ranges. -/
-theorem instance_ranges_sentinel_witness :
-    WFR dWitness ∧
-    lookupInZone dWitness "z" 0 = some "A" ∧
-    rangesForInstance dWitness true 1 "A" = .ok [] ∧
-    rangesForInstance dWitness true 1 "B" = .ok [1, 4294967295] ∧
-    includesKey [] 0 = false ∧ includesKey [1, 4294967295] 0 = false ∧
-    bad (zoneFlags dWitness "z" "A") = true := by
-  refine ⟨witness_wf, witness_lookup, witness_ranges, witness_ranges_B, by decide, by decide, ?_⟩
-  rw [zoneFlags, witness_zoneTokens]; decide
-
-/-- PARTIAL (exact guard `bad … = false`): on every other layout the reported ranges contain a key
-exactly when the lookup inside the instance's zone returns the instance. -/
-theorem instance_ranges_exact_partial (d : Desc) (h : WFR d) (inst : Inst) (hi : inst ∈ d) (hz : inst.zone ≠ "")
-    (hne : zoneTokens d inst.zone ≠ []) (hbad : bad (zoneFlags d inst.zone inst.id) = false) :
-    ∃ tr, rangesForInstance d true (zonesOf d).length inst.id = .ok tr ∧
-      ∀ k, k ≤ maxU32 → (includesKey tr k = true ↔ lookupInZone d inst.zone k = some inst.id) :=
-  rangesForInstance_exact d h inst hi hz hne hbad
-
-/-- The guard is EXACT: on every `bad` layout (any size, any other tokens) the lookup assigns key 0 to the
-instance — token 1 is the first token after key 0 and the instance owns it — but the ranges reported by the
-current code do not contain key 0. -/
-theorem sentinel_gap_on_every_bad_layout (zt : List (Nat × Bool)) (hs : SAsc (zt.map (·.1))) (hbad : bad zt = true) :
-    includesKey (instRangesOf zt) 0 = false ∧ IsSucc (zt.map (·.1)) 0 1 ∧ (1, true) ∈ zt :=
-  bad_gap zt hs hbad
-
-/-- non-vacuity: a two-zone ring with tokens 0, 1, 2^32-1 whose layouts are not `bad`. -/
-def dEx : Desc :=
-  [{ id := "a", zone := "x", tokens := [0, 1, 2] }, { id := "b", zone := "x", tokens := [7, 4294967295] },
-   { id := "c", zone := "y", tokens := [3, 4294967294] }]
-example : WFR dEx := ⟨by decide, by decide, by decide, by decide⟩
-example : bad [(0, true), (1, true), (2, true), (7, false), (4294967295, false)] = false := by decide
+/-! ### Instances (zone-aware ring, replication factor = number of zones) -/
 
 /-- The zone-restricted lookup (`Ring.Get` with one replica per zone) returns the instance exactly
 when the first token of its zone strictly after the key is one of the instance's tokens. -/
@@ -123,44 +78,88 @@ theorem zoneOwner_is_lookup (d : Desc) (h : WFR d) (inst : Inst) (hi : inst ∈ 
     lookupInZone d inst.zone k = some inst.id ↔ ∃ t ∈ inst.tokens, IsSucc (zoneToks d inst.zone) k t :=
   lookupInZone_iff d h inst hi k
 
-/-- The walk with an explicit "have a range end" flag instead of the sentinel (model of the
-suggested fix) is exact on EVERY strictly ascending zone token list … -/
-theorem instance_ranges_exact_fixed (zt : List (Nat × Bool)) (hs : SAsc (zt.map (·.1)))
-    (hb : ∀ p ∈ zt, p.1 ≤ maxU32) (k : Nat) (hk : k ≤ maxU32) :
-    includesKey (instRangesOfF zt) k = true ↔ ∃ t, IsSucc (zt.map (·.1)) k t ∧ (t, true) ∈ zt :=
-  instF_exact zt hs hb k hk
+/-- **Tie to C01's model of `Ring.Get`.** In a zone-aware ring whose instances all carry a zone, for an
+operation under which no instance extends the replica set: the loop of `findInstancesForKey` returns
+`C01.specWalked` (C01's `walk_eq_spec`), every member of it is the instance `lookupInZone` returns for
+its zone, and — when the replication factor covers all zones (`rf = #zones` in particular) — conversely the
+`lookupInZone` owner of every zone is a member. So "the lookup assigns the key to the instance" in the
+theorems below IS membership in the replication set walked by `Ring.Get`. -/
+theorem zone_lookup_is_ring_get (cfg : C01.Cfg) (op : C01.Op) (d : Desc) (hz : ZoneRing cfg op d) (hrf : 1 ≤ cfg.rf)
+    (key : Nat) :
+    C01.findInstancesForKey cfg d (C01.sortedTokens d) key op cfg.rf = .ok (C01.specWalked cfg op d key) ∧
+    (∀ x ∈ C01.specWalked cfg op d key, lookupInZone d x.zone key = some x.id) ∧
+    ((zonesOf d).length ≤ cfg.rf → ∀ inst ∈ d, lookupInZone d inst.zone key = some inst.id →
+      inst ∈ C01.specWalked cfg op d key) :=
+  ⟨PfC01.walk_eq_spec cfg d key op hz.wf hrf, fun x hx => walked_is_lookup cfg op d hz key x hx,
+   fun hle inst hi hl => lookup_is_walked cfg op d hz hle key inst hi hl⟩
 
-/-- … hence `GetTokenRangesForInstance` with the suggested fix is exact on EVERY well-formed ring
-(the full statement of the property for instances, about the model of the fixed code). -/
-theorem instance_ranges_exact_after_fix (d : Desc) (h : WFR d) (inst : Inst) (hi : inst ∈ d) (hz : inst.zone ≠ "")
+def dTie : Desc :=
+  [{ id := "a", zone := "x", tokens := [0, 7] }, { id := "b", zone := "x", tokens := [1, 4294967295] },
+   { id := "c", zone := "y", tokens := [3, 4294967294] }]
+example : ZoneRing { rf := 2, zoneAware := true } C01.opWrite dTie := ⟨by decide, rfl, by decide, by decide⟩
+
+/-- **`GetTokenRangesForInstance` is exact** on every well-formed zone-aware ring with `rf = #zones`:
+it succeeds whenever the instance's zone holds a token, and the reported ranges contain a key exactly
+when the lookup inside the instance's zone returns the instance — including key 0, tokens 0, 1,
+2^32-1 and the wrap-around. -/
+theorem instance_ranges_exact (d : Desc) (h : WFR d) (inst : Inst) (hi : inst ∈ d) (hz : inst.zone ≠ "")
     (hne : zoneTokens d inst.zone ≠ []) :
-    ∃ tr, rangesForInstanceF d true (zonesOf d).length inst.id = .ok tr ∧
+    ∃ tr, rangesForInstance d true (zonesOf d).length inst.id = .ok tr ∧
       ∀ k, k ≤ maxU32 → (includesKey tr k = true ↔ lookupInZone d inst.zone k = some inst.id) :=
-  rangesForInstanceF_exact d h inst hi hz hne
+  rangesForInstance_exact d h inst hi hz hne
 
-/-- … and the current code computes the same ranges unless the layout is `bad`. -/
-theorem sentinel_agrees_unless_bad (zt : List (Nat × Bool)) (hs : SAsc (zt.map (·.1))) (hbad : bad zt = false) :
-    instRangesOf zt = instRangesOfF zt :=
-  instRangesOf_eq_F zt hs hbad
+/-- the same at the level of the walk: for EVERY strictly ascending zone token list with "mine" flags. -/
+theorem instance_ranges_exact_walk (zt : List (Nat × Bool)) (hs : SAsc (zt.map (·.1)))
+    (hb : ∀ p ∈ zt, p.1 ≤ maxU32) (k : Nat) (hk : k ≤ maxU32) :
+    includesKey (instRangesOf zt) k = true ↔ ∃ t, IsSucc (zt.map (·.1)) k t ∧ (t, true) ∈ zt :=
+  inst_exact zt hs hb k hk
 
-/-- Zone tiling for the fixed walk: every key is in the ranges of exactly one instance of the zone. -/
-theorem zone_tiling_fixed (zt : List (Nat × String)) (hs : SAsc (zt.map (·.1))) (hb : ∀ p ∈ zt, p.1 ≤ maxU32)
+/-- **zone tiling**: every key is in the ranges of exactly one instance of the zone (no gap, no overlap). -/
+theorem zone_tiling (zt : List (Nat × String)) (hs : SAsc (zt.map (·.1))) (hb : ∀ p ∈ zt, p.1 ≤ maxU32)
     (hne : zt ≠ []) (k : Nat) (hk : k ≤ maxU32) :
-    ∃ o, includesKey (instRangesOfF (flagsFor zt o)) k = true ∧
-      ∀ o', includesKey (instRangesOfF (flagsFor zt o')) k = true → o' = o :=
-  zone_tiling_F zt hs hb hne k hk
-
-/-- PARTIAL zone tiling for the current code: holds when no instance of the zone has a `bad` layout
-(false otherwise: the witness above leaves key 0 uncovered). -/
-theorem zone_tiling_partial (zt : List (Nat × String)) (hs : SAsc (zt.map (·.1))) (hb : ∀ p ∈ zt, p.1 ≤ maxU32)
-    (hne : zt ≠ []) (hbad : ∀ o, bad (flagsFor zt o) = false) (k : Nat) (hk : k ≤ maxU32) :
     ∃ o, includesKey (instRangesOf (flagsFor zt o)) k = true ∧
       ∀ o', includesKey (instRangesOf (flagsFor zt o')) k = true → o' = o :=
-  zone_tiling_of_not_bad zt hs hb hne hbad k hk
+  zone_tiling_cur zt hs hb hne k hk
 
-example : SAsc ([(0, "a"), (2, "b"), (4294967295, "a")].map (·.1)) ∧
-    ∀ o, bad (flagsFor [(0, "a"), (2, "b"), (4294967295, "a")] o) = false := by
-  refine ⟨by decide, fun o => ?_⟩
-  simp [flagsFor, bad]
+/-- non-vacuity: a two-zone ring with tokens 0, 1, 2^32-1, and the layout that used to fail. -/
+def dEx : Desc :=
+  [{ id := "a", zone := "x", tokens := [0, 7] }, { id := "b", zone := "x", tokens := [1, 4294967295] },
+   { id := "c", zone := "y", tokens := [3, 4294967294] }]
+example : WFR dEx := ⟨by decide, by decide, by decide, by decide⟩
+example : WFR dWitness := witness_wf
+example : instRangesOf [(0, false), (1, true), (100, false)] = [0, 0] := by decide
+example : SAsc ([(0, "a"), (1, "b"), (4294967295, "a")].map (·.1)) := by decide
+
+/-! ### History of the fixed defect (commit 9068690)
+
+Before the fix the walk used `rangeEnd == 0` as "no range end", which collides with the real range end
+`1 - 1 = 0`. `instRangesOfOld` / `rangesForInstanceOld` are the definitions of that old walk; the
+statements below are about them and remain true. `bad zt` is the exact class of zone layouts on which
+the old walk was wrong: the zone holds token 0, the instance owns token 1, and the token following 1 on
+the circle belongs to another instance. -/
+
+/-- WITNESS: zone tokens `{0:B, 1:A, 100:B}`. The lookup assigns key 0 to `A`, but the old walk reported
+no ranges for `A` and `[1, 2^32-1]` for `B`: key 0 was in nobody's ranges. The fixed walk reports `[0,0]`. -/
+theorem old_walk_sentinel_witness :
+    WFR dWitness ∧
+    lookupInZone dWitness "z" 0 = some "A" ∧
+    rangesForInstanceOld dWitness true 1 "A" = .ok [] ∧
+    rangesForInstanceOld dWitness true 1 "B" = .ok [1, 4294967295] ∧
+    includesKey [] 0 = false ∧ includesKey [1, 4294967295] 0 = false ∧
+    bad (zoneFlags dWitness "z" "A") = true ∧
+    rangesForInstance dWitness true 1 "A" = .ok [0, 0] := by
+  refine ⟨witness_wf, witness_lookup, witness_ranges, witness_ranges_B, by decide, by decide, ?_, witness_ranges_new⟩
+  rw [zoneFlags, witness_zoneTokens]; decide
+
+/-- the old walk computed the same ranges as the fixed one unless the layout is `bad` … -/
+theorem sentinel_agrees_unless_bad (zt : List (Nat × Bool)) (hs : SAsc (zt.map (·.1))) (hbad : bad zt = false) :
+    instRangesOfOld zt = instRangesOf zt :=
+  instRangesOfOld_eq zt hs hbad
+
+/-- … and on EVERY `bad` layout (any size, any other tokens) it left key 0 uncovered although the lookup
+assigns key 0 to the instance (token 1 is the first token after key 0 and the instance owns it). -/
+theorem sentinel_gap_on_every_bad_layout (zt : List (Nat × Bool)) (hs : SAsc (zt.map (·.1))) (hbad : bad zt = true) :
+    includesKey (instRangesOfOld zt) 0 = false ∧ IsSucc (zt.map (·.1)) 0 1 ∧ (1, true) ∈ zt :=
+  bad_gap zt hs hbad
 
 end PC14
